@@ -99,14 +99,18 @@ func genNCOp(r *rand.Rand) NCOp {
 	case "deleteconfig", "lock", "unlock", "validate":
 		op.A = pick(r, datastores...)
 	case "commit":
-		switch r.IntN(4) {
-		case 0:
+		// every combination of the four commit options (RFC 6241 8.4: e.g. the follow-up of a
+		// persistent confirmed commit carries <confirmed/> and <persist-id>)
+		if r.IntN(2) == 0 {
 			op.Confirmed = true
-		case 1:
-			op.Confirmed = true
+		}
+		if r.IntN(3) == 0 {
 			op.ConfirmTO = uint(between(r, 1, 86400))
+		}
+		if r.IntN(3) == 0 {
 			op.Persist = word(r, lower+digits, 1, 12)
-		case 2:
+		}
+		if r.IntN(3) == 0 {
 			op.PersistID = word(r, lower+digits, 1, 12)
 		}
 	case "rpc":
